@@ -258,6 +258,10 @@ pub struct PlayOpts {
     pub kill_at: Option<(usize, u64, bool)>,
     #[serde(default)]
     pub record_events: bool,
+    /// the crash plan counts yields of script processes (C04) instead of
+    /// state-changing yields of redo processes (C10)
+    #[serde(default)]
+    pub kill_scripts: bool,
 }
 
 fn set_mtime(path: &Path, ns: u64) {
@@ -516,6 +520,7 @@ fn play_group(
     if let Some((g, k, tree)) = opts.kill_at {
         if g == idx {
             sim.kill_at = Some((k, tree));
+            sim.kill_scripts = opts.kill_scripts;
         }
     }
     // jobserver pipes for commands that run under a simulated make
